@@ -44,7 +44,8 @@ MIN_NONTRIVIAL = 200
 REQUIRED_COUNTERS = ["schedules", "coarse_schedules_exhaustive", "line_level_schedules", "line_events", "context_switches", "lock_contentions", "first_request_sharing_checked", "render_schedules", "free_running_runs", "beaker_first_use_races"]
 REQUIRED_COUNTERS += ["render_vs_modification_points"]
 REQUIRED_COUNTERS += ["decorator_rendezvous_runs"]
-REQUIRED_COUNTERS += ["loop_rendezvous_runs"]
+REQUIRED_COUNTERS += ["loop_rendezvous_runs", "template_module_schedules"]
+RULE += "; a second bound-1 exploration of two concurrent renders whose fine-grained switch points are the lines of mako/template.py only"
 RULE += "; two renders held in lock-step inside nested % for loops of different shapes (rendezvous at every iteration), compared with their solo output"
 RULE += "; the concurrently rendered template holds nested % for loops whose lengths differ from render to render and print loop.index / loop.parent.index / loop.first / loop.last beside the plain loop variables"
 SHARDS = {"quick": 32, "thorough": 64}
@@ -405,7 +406,7 @@ RENDER_TEMPLATES = {
 }
 
 
-def run_render_schedule(strategy, res, rc, nthreads=2, free=False):
+def run_render_schedule(strategy, res, rc, nthreads=2, free=False, mods=None):
     import mako.cache
 
     lk = _st["TemplateLookup"](cache_impl="c16dict")
@@ -462,7 +463,7 @@ def run_render_schedule(strategy, res, rc, nthreads=2, free=False):
         for i in range(nthreads):
             s.spawn(make(i))
         hook = _st["hook"]
-        hook.install(_st["mods_render"])
+        hook.install(mods or _st["mods_render"])
         hook.sched = s
         _st["sched"] = s
         try:
@@ -876,6 +877,9 @@ def gen_cases(tier, seed):
     for i in range(8 if tier == "quick" else 200):
         yield {"kind": "render-random", "seed": seed, "index": i, "n": 10 if tier == "quick" else 40, "threads": 2 + i % 2}
     yield {"kind": "render-dfs", "bound": 1, "limit": 150 if tier == "quick" else 5000}
+    # the same with the lines of mako/template.py as the only fine-grained switch points (what a Template object sets up
+    # lazily on first use: few lines, so that every single preemption there is tried)
+    yield {"kind": "render-dfs", "bound": 1, "limit": 600 if tier == "quick" else 5000, "mods": "template"}
     for i in range(4 if tier == "quick" else 60):
         yield {"kind": "free", "seed": seed, "index": i}
 
@@ -920,9 +924,14 @@ def run_case(case):
         res.sample = {"kind": "render", "threads": case["threads"]}
     elif k == "render-dfs":
         prefix = []
+        import mako.template as _mt
+
+        mods = [_mt] if case.get("mods") == "template" else None
         for _ in range(case["limit"]):
             st = sched.DFS(prefix, case["bound"])
-            run_render_schedule(st, res, {"kind": "render-replay", "prefix": prefix, "bound": case["bound"]})
+            run_render_schedule(st, res, {"kind": "render-replay", "prefix": prefix, "bound": case["bound"], "mods": case.get("mods")}, mods=mods)
+            if mods:
+                res.count("template_module_schedules")
             if getattr(res, "stop", False):
                 break
             prefix = st.next_prefix()
@@ -949,5 +958,7 @@ def run_case(case):
         run_schedule(case["scenario"], st, case["line"], res, case)
     elif k == "render-replay":
         st = sched.DFS(case["prefix"], case["bound"])
-        run_render_schedule(st, res, case)
+        import mako.template as _mt
+
+        run_render_schedule(st, res, case, mods=[_mt] if case.get("mods") == "template" else None)
     return res
